@@ -97,6 +97,16 @@ def body(ck, F, cfg):
     EV = PN.err_variants_rule(F, reachable)
     # a helper reached only from functions the proof does not flow into is itself not proof-dependent
     npd = dict(NOT_PROOF_DEPENDENT)
+    try:
+        from .. import harness as _H
+
+        site = _H.flatten_site(F, "verifier")
+        if site["style"] == "free":
+            # merged twins: the harness hook checks that the helper is handed the verifier's own constraint list, gate
+            # count and commitment count (none of them proof data)
+            npd[site["path"]] = NOT_PROOF_DEPENDENT["r1cs::verifier::Verifier::<G, T>::flattened_constraints"] + " [shared helper: arguments are the verifier's constraint list, z and its two counts]"
+    except FX.AnchorMissing:
+        pass
     npd = {F.resolve(k_) if True else k_: v_ for k_, v_ in npd.items() if _try_resolve(F, k_)}
     grown = True
     while grown:
